@@ -3,7 +3,7 @@ import TaskModel.Sched.MonC02
 /-! Helper lemmas for C02 (`Props/C02.lean`): the relation between the state of the
 sequencing monitor `seqMon` and the model state of one activation, and its preservation
 by every local step. -/
-namespace TaskModel.Sched
+namespace TaskModel.Sched.S2
 
 /-- the entry an activation has open: (index, is a `task:` call) -/
 def openOf : Phase → Option (Nat × Bool)
@@ -218,4 +218,4 @@ theorem SeqR_local (F : Flags) (o : Obs) (s : SeqSt) (x : Act) (ev : Ev) (y : Ac
     refine ⟨{ s with cur := some (_, true) }, by simp [seqMon, hcur], SeqR_open _ _ rfl rfl (by simp) ?_⟩
     intro i hi; cases hi
 
-end TaskModel.Sched
+end TaskModel.Sched.S2
